@@ -345,6 +345,48 @@ def check_repeat_calls(res: Result, names, want, case):
             res.nontrivial += 1
 
 
+def check_rewrap(res: Result, names, want, case):
+    """vector.Array applied to an Awkward vector array whose fields were changed with ak.without_field / ak.with_field (which keep the
+    old record name): dimension, coordinate system and flavor must follow the *present* fields, incomplete sets must not build a vector."""
+    dim, system, flavor, origin = want
+    base = vector.zip({n: ak.Array([TAG[n], -TAG[n]]) for n in names})
+    present = ak.fields(base)
+    variants = [("without:" + f, lambda f=f: ak.without_field(base, f), [n for n in names if SYN.get(n, n) != f]) for f in present]
+    if dim < 4 and "eta" not in present and "theta" not in present and "z" not in present:
+        variants.append(("with:eta", lambda: ak.with_field(base, ak.Array([0.5, -0.25]), "eta"), list(names) + ["eta"]))
+    for vname, mk, now_names in variants:
+        res.states += 1
+        res.transitions += 1
+        res.traces += 1
+        res.evaluations += 1
+        c2 = dict(case, ctor="Array(rewrap)", variant=vname)
+        expect = m_ctor(tuple(now_names)) if now_names else None
+        key = f"rewrap|{vname.split(':')[0]}|{dim}D"
+        try:
+            r = vector.Array(mk())
+        except Exception:  # noqa: BLE001
+            if expect is None:
+                res.nontrivial += 1
+            else:
+                res.violation(key + "|rejects_valid", f"vector.Array of a {dim}D vector array after {vname} raised although the remaining names {now_names} are a documented set", c2)
+            continue
+        d = describe_arraylike(r)
+        if expect is None:
+            if d is not None and d[0] != "incomplete" and isinstance(r, vector.backends.awkward.VectorAwkward):
+                # the weak contract: whatever is accepted must be a complete valid subset of the present fields
+                have = set(ak.fields(r))
+                need = set(L.field_names(d[1]))
+                if len(d[1]) + 1 != d[0] or not need <= have:
+                    res.violation(key + "|incomplete", f"vector.Array after {vname} built a {d[0]}D vector ({type(r).__name__}) from the fields {sorted(have)}", c2)
+                    continue
+            res.nontrivial += 1
+            continue
+        if d is None or d[0] == "incomplete" or (d[0], d[1]) != (expect[0], expect[1]):
+            res.violation(key, f"vector.Array after {vname} built {d and d[:3]} ({type(r).__name__}); the present fields {now_names} denote {expect[:3]}", c2)
+        else:
+            res.nontrivial += 1
+
+
 ARRAY_CTORS = {"array(dict)": _array_dict, "array(dtype)": _array_dtype, "array(rows, dtype positional)": _array_dtype_positional, "array(rows, numpy.dtype positional)": _array_dtype_object_positional,
                "zip": _zip, "Array": _Array}
 
@@ -412,6 +454,8 @@ def check_set(res: Result, names, tier, only=None):
         check_mixed_containers(res, names, want, case)
     if only is None or case.get("repeat") or str(only).startswith(("array(", "Array(", "zip")):
         check_repeat_calls(res, names, want, case)
+    if only is None or str(only).startswith("Array"):
+        check_rewrap(res, names, want, case)
     dim, system, flavor, origin = want
     cls_name = ("Momentum" if flavor == "momentum" else "Vector") + f"Object{dim}D"
     ctors = {"obj": vector.obj, cls_name: OBJ_CLASSES[cls_name][0]}
